@@ -318,18 +318,27 @@ PPL::Polyhedron::relation_with(const Congruence& cg) const {
       && Poly_Con_Relation::is_included()
       && Poly_Con_Relation::is_disjoint();
   }
-  // Build the equality corresponding to the congruence (ignoring the modulus).
+  // Build the expression corresponding to the congruence
+  // (ignoring the modulus).
   Linear_Expression expr(cg.expression());
-  const Constraint c(expr == 0);
+  PPL_DIRTY_TEMP_COEFFICIENT(modulus);
+  modulus = cg.modulus();
 
   // The polyhedron is non-empty so that there exists a point.
-  // For an arbitrary generator point, compute the scalar product with
-  // the equality.
+  // For an arbitrary generator point `p' having divisor `d', compute
+  // `d * expr(p)' and scale both the expression and the modulus by `d',
+  // so that all the computations below are on integral values.
+  // NOTE: the scalar product is computed using `expr' itself (not a
+  // constraint built from it, whose normalization may change its sign).
   PPL_DIRTY_TEMP_COEFFICIENT(sp_point);
   for (Generator_System::const_iterator gs_i = gen_sys.begin(),
          gs_end = gen_sys.end(); gs_i != gs_end; ++gs_i) {
     if (gs_i->is_point()) {
-      Scalar_Products::assign(sp_point, c, *gs_i);
+      Coefficient_traits::const_reference div = gs_i->divisor();
+      Scalar_Products::homogeneous_assign(sp_point, expr, *gs_i);
+      add_mul_assign(sp_point, expr.inhomogeneous_term(), div);
+      expr *= div;
+      modulus *= div;
       expr -= sp_point;
       break;
     }
@@ -342,7 +351,6 @@ PPL::Polyhedron::relation_with(const Congruence& cg) const {
   // corresponding to the hyperplanes to determine the result.
 
   // Compute the distance from the point to an hyperplane.
-  const Coefficient& modulus = cg.modulus();
   PPL_DIRTY_TEMP_COEFFICIENT(signed_distance);
   signed_distance = sp_point % modulus;
   if (signed_distance == 0) {
